@@ -287,7 +287,19 @@ fn outputs(res: &str) -> Vec<Vec<u8>> {
 pub fn generate(w: &mut dyn Write, seed: u64, thorough: bool) {
     let mut rng = Rng::new(seed);
     let now: i64 = 1_790_000_000;
-    let masks: Vec<u8> = vec![1, 5, 9, 13, 17, 25, 29, 21, 0, 4];
+    // option masks (S=1 chunk stream, R=2 reuse, M=4 masking, P=8 padding, A=16 authenticated length): thorough = all 32;
+    // quick = the ten usual ones + four more chosen by the seed
+    let mut masks: Vec<u8> = vec![1, 5, 9, 13, 17, 25, 29, 21, 0, 4];
+    if thorough {
+        masks.extend((0u8..32).filter(|m| ![1u8, 5, 9, 13, 17, 25, 29, 21, 0, 4].contains(m)));
+    } else {
+        while masks.len() < 14 {
+            let m = rng.below(32) as u8;
+            if !masks.contains(&m) {
+                masks.push(m);
+            }
+        }
+    }
     let per = if thorough { 24 } else { 6 };
     // ---- body level: all masks x securities x directions, stream and packet mode ----
     for &opt in &masks {
